@@ -34,6 +34,16 @@ Theorem C01_comparable :
     prefix (snd (reference vals D1')) (snd (reference vals D1)).
 Proof. exact reference_comparable. Qed.
 
+(* same epoch transition: instances that have both reached the sealing frame (each on its own accepted
+   subset of the epoch's DAG, in its own order) have emitted the same blocks up to and including the
+   sealing block; the next validator set is a function of the old one (ElectionSpec.next_vals) *)
+Theorem C01_seal_agreement :
+  forall vals k D1 D1' D2, all_accepted vals D1 -> all_accepted vals D1' -> all_accepted vals D2 ->
+    incl D1 D2 -> incl D1' D2 -> few_forkers vals (table vals D2) ->
+    snd (seal_cut k (snd (reference vals D1))) = true -> snd (seal_cut k (snd (reference vals D1'))) = true ->
+    seal_cut k (snd (reference vals D1)) = seal_cut k (snd (reference vals D1')).
+Proof. exact reference_seal_agreement. Qed.
+
 (* table level: monotonicity of decisions — the blocks of a well-formed sub-table are a prefix *)
 Theorem C01_blocks_monotone :
   forall vals T1 T2, wfT vals T1 -> wfT vals T2 -> few_forkers vals T2 -> incl T1 T2 ->
@@ -64,6 +74,7 @@ Proof. exact (C01_from_refinement reference reference_refines). Qed.
 Print Assumptions C01_prefix_agreement.
 Print Assumptions C01_same_events.
 Print Assumptions C01_comparable.
+Print Assumptions C01_seal_agreement.
 Print Assumptions C01_blocks_monotone.
 Print Assumptions C01_node_independent_of_order.
 Print Assumptions C01_full_from_refinement.
